@@ -127,7 +127,7 @@ def run(check, an: Analysis):
                    '(%d changes on paths)' % n_mut,
                    path=rules.path_lines(*bad) if bad else None, analysed=n_mut)
     for fn2, stmt, target, recvs in rules.attribute_stores(an, '_subscriptions', PIPE):
-        ok = fn2.cls is not None and fn2.cls.qn == PIPE
+        ok = rules.owned_by(an, fn2, PIPE)
         check.instance('K', 'writer:_subscriptions:%s' % short(fn2.qn), ok,
                        '%s:%d' % (fn2.module.relpath, stmt.lineno),
                        'only the pipe itself writes the table', nontrivial=False)
